@@ -237,6 +237,8 @@ def rand_spec(rng, *, allow_full=True, allow_linked=True, allow_items=True, forc
     method = force.get("method", rng.choice(["nearest", "nearest", "backward", "forward"]))
     datasets = []
     axis_mode = rng.choice(["identical", "overlap", "disjoint", "offset"])
+    if "axis_mode" in force:
+        axis_mode = force["axis_mode"]
     full_model_used = False
     for i, dl in enumerate(dlabels):
         g = gnames[i % len(gnames)] if i < len(gnames) else rng.choice(gnames)
@@ -250,6 +252,8 @@ def rand_spec(rng, *, allow_full=True, allow_linked=True, allow_items=True, forc
             gax = [x + 10.0 * i for x in grid[: rng.randint(2, 3)]]
         else:
             off = rng.choice([0.0, 0.25, -0.25, 0.5])
+            if "offsets" in force:
+                off = force["offsets"][i % len(force["offsets"])]
             start = rng.randint(0, 2)
             gax = [x + off for x in grid[start: start + rng.randint(2, 3)]]
         n_global = len(gax)
